@@ -142,7 +142,37 @@ def parse_stdout(stdout):
     return view
 
 
-def judge(case_argv, res, ctors):
+def builder_version_string(call):
+    """'2' / '3.0' / '3.1' / '4.0' as the CLI asked the builder for it (None if unrecognised)."""
+    try:
+        pos = call["args"][1]
+        v = pos[0] if pos else None
+        if v is None:
+            for k, val in call["kwargs"][1]:
+                if k == "version":
+                    v = val
+        if v is None:
+            return "3.1"
+        f = float(v[1]) if isinstance(v, list) else float(v)
+        return {2.0: "2", 3.0: "3.0", 3.1: "3.1", 4.0: "4.0"}.get(f)
+    except Exception:
+        return None
+
+
+def builder_all_flag(call, default):
+    try:
+        pos = call["args"][1]
+        if len(pos) > 1:
+            return bool(pos[1])
+        for k, val in call["kwargs"][1]:
+            if k == "all_metrics":
+                return bool(val)
+    except Exception:
+        pass
+    return default
+
+
+def judge(case_argv, res, ctors, labels=None):
     """All C17 clauses on one recorded run. -> (violations, info)."""
     case = decode_argv(case_argv)
     vio = []
@@ -181,6 +211,20 @@ def judge(case_argv, res, ctors):
             vio.append(violation(PROP, "e", "builder-version:%s:%s" % (sel, asked_major),
                                  "selected CVSS v%s but the interactive questions are those of v%s [argv=%r]" %
                                  (sel, asked_major, case_argv)))
+        # ---- clause g: the vector that is scored is the one the answers determine ----
+        # (the C16 reference model applied to the dialogue seen through the CLI; a defect of the
+        # builder is a defect of interactive entry whichever door the user came in by)
+        bver = builder_version_string(calls[0])
+        ball = case["flags"]["a"]  # what the user asked for (-a / --all), not what the CLI passed on
+        if labels is not None and bver in labels:
+            bitem = {"version": bver, "all": ball}
+            bres = {"events": res["events"], "returned": calls[0]["returned"], "exc": calls[0].get("exc"),
+                    "aborted": False, "reads": res["reads"], "returned_is_text": isinstance(calls[0]["returned"], str)}
+            bvio, _ = engine_builder.judge(bitem, bres, labels[bver], ctors[spec.CLASS_OF[bver]])
+            for v in bvio:
+                detail = v["sig"].split(":", 2)[2]
+                vio.append(violation(PROP, "g", "interactive-entry:" + detail,
+                                     "interactive entry through the CLI [argv=%r]: %s" % (case_argv, v["message"])))
         vector = calls[0]["returned"]
         if info["eof"] or vector is None:
             # ---- clause d: end of input ends the program cleanly ----
@@ -356,7 +400,7 @@ class CliEngine(object):
             res2 = dict(res)
             res2.update(real)
             res2["exc"] = None
-            vio, _ = judge(item["argv"], res2, self.ctors)
+            vio, _ = judge(item["argv"], res2, self.ctors, None)
             for v in vio:
                 v["sig"] += ":real-process"
                 v["message"] += " (observed on the real child process)"
@@ -380,7 +424,7 @@ class CliEngine(object):
 
     def assess(self, trace, res):
         item = trace["item"]
-        vio, info = judge(item["argv"], res, self.ctors)
+        vio, info = judge(item["argv"], res, self.ctors, self.labels)
         dg = runner23.digest([item["argv"], res["events"], res["exit"], res["exc"], res["stderr"], res["aborted"],
                               [c["returned"] for c in res["builder_calls"]]])
         case = decode_argv(item["argv"])
